@@ -188,6 +188,10 @@ func (r *ingressController) buildCanaryIngress(stableIngress *netv1.Ingress) *ne
 	for ir := 0; ir < len(stableIngress.Spec.Rules); ir++ {
 		var hasStableServiceBackendRule bool
 		stableRule := stableIngress.Spec.Rules[ir]
+		if stableRule.HTTP == nil {
+			// a rule without http paths (host only) has nothing to copy
+			continue
+		}
 		canaryRule := netv1.IngressRule{
 			Host: stableRule.Host,
 			IngressRuleValue: netv1.IngressRuleValue{
@@ -196,7 +200,8 @@ func (r *ingressController) buildCanaryIngress(stableIngress *netv1.Ingress) *ne
 		}
 		// Update all backends pointing to the stableService to point to the canaryService now
 		for ip := 0; ip < len(stableRule.HTTP.Paths); ip++ {
-			if stableRule.HTTP.Paths[ip].Backend.Service.Name == r.conf.StableService {
+			// a path may have a resource backend instead of a service backend
+			if stableRule.HTTP.Paths[ip].Backend.Service != nil && stableRule.HTTP.Paths[ip].Backend.Service.Name == r.conf.StableService {
 				hasStableServiceBackendRule = true
 				if stableRule.Host != "" {
 					hosts.Insert(stableRule.Host)
